@@ -157,7 +157,7 @@ def run(ck):
         return finish(ck)
     findings = {f["cls"]: f for f in known_findings("C10")}
     F7 = findings.get("quoted-name-coincides-with-use-site")
-    n_cases = 400 if ck.tier == "quick" else 5000
+    n_cases = 400 if ck.tier == "quick" else 15000
     rng = ck.rng.fork("hygiene")
     cases = []
     # the witness of DESIGN.md first
